@@ -85,6 +85,40 @@ def c03_binding_grid():
     return progs
 
 
+def rename(node, m):
+    """the same program with variable / parameter / keyword names replaced (m: old -> new); property names of calls stay"""
+    if isinstance(node, list):
+        return [rename(x, m) for x in node]
+    if not isinstance(node, dict):
+        return node
+    out = {k: rename(v, m) for k, v in node.items()}
+    t = node.get("t")
+    if t in ("id", "asg", "casg", "vcall"):
+        out["n"] = m.get(node["n"], node["n"])
+    elif t == "argv" and node["n"][1:] in m:
+        out["n"] = "\\" + m[node["n"][1:]]
+    elif t == "fn":
+        out["ps"] = [m.get(x, x) for x in node["ps"]]
+    if "k" in node and isinstance(node["k"], str) and "v" in node:       # keyword parameters, passed keywords, pairs of object literals
+        out["k"] = m.get(node["k"], node["k"])
+    return out
+
+
+# keyword names that are also properties every object inherits from Obj / BaseObj: a keyword is a variable of the call, never a property lookup
+PROPLIKE = [("max", "min"), ("keys", "first"), ("p", "S"), ("new", "bear"), ("len", "A"), ("which", "proto"), ("map", "index"), ("values", "sum")]
+
+
+def c03_proplike_names():
+    progs = []
+    n = 0
+    for tag, body in c03_binding_grid():
+        if tag in ("kwargs", "kwargs-dspread", "closure-kwdefault"):
+            a, b = PROPLIKE[n % len(PROPLIKE)]
+            n += 1
+            progs.append((tag + "-proplike", rename(body, {"k": a, "j": b, "d": a, "e": b, "w": a})))
+    return progs
+
+
 def c03_scope_family():
     """closures: free variables, shadowing, local / compound assignment, reassignment after creation, siblings, recursion"""
     progs = []
